@@ -173,4 +173,94 @@ example : GenPost 10000 1 genInst (fun _ => ⟨3/20, 9/50, 1/5, 23/5, 1, 1, 1/2,
     subst this
     exact ⟨(5, 0), by simp [genInst], by simp [genInst], Or.inr ⟨rfl, by norm_num, by norm_num⟩⟩
 
+/-- the environment-side reading of the feature set of an instance (what `MTVRPEnv.check_variants` looks at) -/
+structure HasFeatures (i : Inst) (f : Features) : Prop where
+  openR : i.openR = f.openRoute
+  tw    : (f.twFinite = true → ∀ j, j ≤ i.n → i.late j ≠ none) ∧ (f.twFinite = false → ∀ j, j ≤ i.n → i.late j = none)
+  limit : (f.limitFinite = true → i.limit ≠ none) ∧ (f.limitFinite = false → i.limit = none)
+  back  : f.backhaulAllowed = false → ∀ j, i.dB j = 0
+
+/-- **preset ⇒ features ⇒ WF ⇒ C02**, for each of the 16 variant names of the regenerated preset table: the named
+preset exists in `VARIANT_GENERATION_PRESETS`, it enables exactly the features its name spells, and every instance
+generated under it (generator post-conditions `GenPost`, feature removals applied) is well-formed, never dead-ends
+and finishes every mask-confined episode within `2n+1` steps -/
+theorem preset_chain (o tw l b : Bool) :
+    ∃ row, Params.genMtvrpPresets.lookup (variantName ⟨o, tw, l, b⟩) = some row ∧
+      applyKeep (keepNamed row) = { openRoute := o, twFinite := tw, limitFinite := l, backhaulAllowed := b } ∧
+      ∀ {κ : ℚ} {u : Int} {i : Inst} {tws : Nat → TwIn} {Tmax limitR : ℚ} {C minD maxD minB maxB : Int},
+        GenPost κ u i tws Tmax limitR C minD maxD minB maxB → HasFeatures i (applyKeep (keepNamed row)) →
+        wf i = true ∧ i.openR = o ∧
+        (∀ (as : List Nat) (s : State), RunND env i (env.reset i) as s →
+          as.length ≤ 2 * i.n + 1 ∧
+          (env.done i s = false → ∃ a, a < env.nAct i ∧ env.mask i s a = true)) := by
+  have h := named_preset_features o tw l b
+  cases hl : Params.genMtvrpPresets.lookup (variantName ⟨o, tw, l, b⟩) with
+  | none => simp [hl] at h
+  | some row =>
+    simp only [hl, Option.map_some, Option.some.injEq] at h
+    refine ⟨row, rfl, h, ?_⟩
+    intro κ u i tws Tmax limitR C minD maxD minB maxB g hf
+    have hwf := gen_wf_mtvrp g
+    refine ⟨hwf, by rw [hf.openR, h], ?_⟩
+    intro as s hrun
+    refine ⟨steps_le i hwf hrun, fun hd => ?_⟩
+    obtain ⟨a, ha, hm, _⟩ := progress i hwf hrun hd
+    exact ⟨a, ha, hm⟩
+
+/-- the one-customer generator image `genInst` with the features `(o, tw, l, b)` kept and the others removed -/
+def genInstF (o tw l b : Bool) : Inst :=
+  { genInst with
+    openR := o
+    late := fun j => if tw then genInst.late j else none
+    limit := if l then genInst.limit else none
+    dL := fun j => if b then 0 else genInst.dL j
+    dB := fun j => if b then genInst.dL j else 0 }
+
+/-- **non-vacuity for every one of the 16 presets**: `genInstF o tw l b` is a generator image with exactly those features -/
+theorem genPost_genInstF (o tw l b : Bool) :
+    GenPost 10000 1 (genInstF o tw l b) (fun _ => ⟨3/20, 9/50, 1/5, 23/5, 1, 1, 1/2, 1/2, 1/2⟩) (23/5) 3 30 1 10 1 10 ∧
+    HasFeatures (genInstF o tw l b) { openRoute := o, twFinite := tw, limitFinite := l, backhaulAllowed := b } := by
+  have one : ∀ j, 1 ≤ j → j ≤ (genInstF o tw l b).n → j = 1 := by
+    intro j h1 h2; simp only [genInstF, genInst] at h2; omega
+  refine ⟨{
+    κpos := by norm_num
+    upos := by norm_num
+    cond := fun j _ _ => ⟨by constructor <;> norm_num, rfl⟩
+    travel := fun j h1 h2 => by have := one j h1 h2; subst this; simp [genInstF, genInst]
+    dist := fun j h1 h2 => by have := one j h1 h2; subst this; simp [genInstF, genInst]
+    windows := by
+      cases tw
+      · left; intro j _; simp [genInstF]
+      · right
+        refine ⟨⟨46000, by simp [genInstF, genInst], by norm_num⟩, fun j h1 h2 => ?_⟩
+        have := one j h1 h2; subst this
+        refine ⟨by norm_num [genInstF, genInst, twStart, hMax, service, twLength], by norm_num [genInstF, genInst, service],
+          23125, by simp [genInstF, genInst], by norm_num [twEnd, twStart, hMax, service, twLength]⟩
+    limit := by
+      cases l
+      · left; simp [genInstF]
+      · right; exact ⟨30000, by simp [genInstF, genInst], by norm_num, fun j _ _ => by norm_num⟩
+    cap := rfl
+    bounds := by norm_num
+    capNonneg := by norm_num
+    depot := by cases b <;> simp [genInstF, genInst]
+    demand := fun j h1 h2 => by
+      have := one j h1 h2; subst this
+      cases b
+      · exact ⟨(5, 0), by simp [genInstF, genInst], by simp [genInstF], Or.inr ⟨rfl, by norm_num, by norm_num⟩⟩
+      · exact ⟨(0, 5), by simp [genInstF], by simp [genInstF, genInst], Or.inl ⟨rfl, by norm_num, by norm_num⟩⟩ }, ?_⟩
+  refine ⟨rfl, ⟨?_, ?_⟩, ⟨?_, ?_⟩, ?_⟩
+  · intro h j _; subst h; simp [genInstF, genInst]
+  · intro h j _; subst h; simp [genInstF]
+  · intro h; subst h; simp [genInstF, genInst]
+  · intro h; subst h; simp [genInstF]
+  · intro h j; simp only at h; subst h; simp [genInstF]
+
+/-- hence, for every preset name, a generated instance exists and it is solvable -/
+theorem preset_instance_solvable (o tw l b : Bool) :
+    wf (genInstF o tw l b) = true ∧
+    ∀ (as : List Nat) (s : State), RunND env (genInstF o tw l b) (env.reset (genInstF o tw l b)) as s → as.length ≤ 3 := by
+  have g := (genPost_genInstF o tw l b).1
+  exact ⟨gen_wf_mtvrp g, fun as s h => by simpa [genInstF, genInst] using gen_steps_le g h⟩
+
 end Rl4co.Mtvrp
